@@ -99,11 +99,40 @@ def sample(case: Case, out: Outcome) -> dict:
     }
 
 
+def kind_labels(src: str) -> list[str]:
+    """which constructs the source contains (computed with the independent walker)"""
+    prg = oracle.try_parse(src)
+    if prg is None:
+        return []
+    labs = set()
+    for stm in prg:
+        for n in astutil.walk(stm):
+            t = n.ast_type.name
+            if t == "Aggregate":
+                labs.add("kind:oldstyle_or_choice")
+            elif t == "BodyAggregate":
+                labs.add("kind:bodyagg_" + ["count", "sum", "sumplus", "min", "max"][int(n.function)])
+                if n.left_guard is not None and n.right_guard is not None:
+                    labs.add("kind:two_guards")
+            elif t == "HeadAggregate":
+                labs.add("kind:headagg")
+            elif t in ("Pool", "Interval", "ConditionalLiteral", "Disjunction", "Minimize", "ShowSignature", "ShowTerm", "Definition", "TheoryAtom", "External"):
+                labs.add("kind:" + t.lower())
+            elif t == "Comparison" and len(n.guards) > 1:
+                labs.add("kind:chain")
+            elif t == "Literal" and int(n.sign) != 0:
+                labs.add("kind:negation")
+            elif t in ("BinaryOperation", "UnaryOperation"):
+                labs.add("kind:arithmetic")
+    return sorted(labs)
+
+
 def labelled_evaluate(spec: SemSpec) -> Callable[[Case, str], Outcome]:
     """evaluate + generic labels (declaration class, instance classes, statement kinds)"""
 
     def evaluate(case: Case, tier: str) -> Outcome:
         out = sem_evaluate(case, spec, tier)
+        out.labels.extend(kind_labels(case.src))
         out.labels.append("decl:" + str(case.extra.get("decl", "?")))
         for c in set(case.extra.get("inst_classes", [])):
             out.labels.append("inst:" + c)
@@ -135,3 +164,73 @@ def corpus_entries(trait: Optional[str] = None, files: Optional[list] = None, ob
     if objective:
         res = [e for e in res if corpus.has_objective(e)]
     return [{"file": e["file"], "idx": e["idx"], "src": e["src"]} for e in res]
+
+
+def install(
+    ns: dict,
+    *,
+    pid: str,
+    spec: SemSpec,
+    rule: str,
+    traits_fn: Callable[[Callable], list],
+    corpus_sel: Callable[[], list],
+    template: Optional[Callable[[Callable], tuple]] = None,
+    mix: tuple = (6, 8, 6),  # weights grammar / template / mutant
+    budgets: tuple = (2400, 48000),
+    decl: str = "free",
+    facts_over: str = "in",
+    corpus_traits: Optional[Callable[[Callable, dict], list]] = None,
+    mutant_pool: Optional[Callable[[], list]] = None,
+    technique: str = "",
+    level_text: str = "",
+    level_note: str = "",
+    grammar_kwargs: Optional[dict] = None,
+) -> None:
+    """populate a property module's namespace with the standard semantic-check interface"""
+    ns["PID"] = pid
+    ns["LEVEL"] = "exploration"
+    ns["SPEC"] = spec
+    ns["RULE"] = rule
+    ns["ASSUMPTIONS"] = BASE_ASSUMPTIONS
+    ns["evaluate"] = labelled_evaluate(spec)
+    ns["sample"] = sample
+    ns["TECHNIQUE"] = technique or "property-based differential testing (Hypothesis generators; clingo enumerates source vs rewrite)"
+    ns["LEVEL_TEXT"] = level_text
+    ns["LEVEL_NOTE"] = level_note or "Trusted: clingo 5.8.2, Hypothesis. Bounded program/instance sizes; open known findings suppress only failures matching their narrow trigger."
+
+    def budget(tier: str) -> int:
+        return budgets[0] if tier == "quick" else budgets[1]
+
+    def corpus_items(tier: str) -> list:
+        return corpus_sel()
+
+    @st.composite
+    def corpus_strategy(draw: Any, item: dict, tier: str) -> Any:
+        traits = corpus_traits(draw, item) if corpus_traits else traits_fn(draw)
+        return build_case(draw, item["src"], f"corpus:{item['file']}:{item['idx']}", tier, traits, decl=decl, facts_over=facts_over)
+
+    gw, tw, mw = mix
+    if template is None:
+        tw = 0
+
+    @st.composite
+    def strategy(draw: Any, tier: str) -> Any:
+        k = draw(st.integers(0, gw + tw + mw - 1))
+        traits = traits_fn(draw)
+        if k < gw:
+            src = draw(grammar.programs(**(grammar_kwargs or {})))
+            return build_case(draw, src, "grammar", tier, traits, decl=decl, facts_over=facts_over, sorts=GRAMMAR_SORTS)
+        if k < gw + tw:
+            src, name = template(draw)
+            return build_case(draw, src, "template:" + name, tier, traits, decl=decl, facts_over=facts_over)
+        pool = (mutant_pool or corpus_sel)()
+        item = draw(st.sampled_from(pool))
+        from ..gen import mutate  # pylint: disable=import-outside-toplevel
+
+        src, _ = mutate.mutant(draw, item["src"])
+        return build_case(draw, src, "mutant:" + item["file"], tier, traits, decl=decl, facts_over=facts_over)
+
+    ns["budget"] = budget
+    ns["corpus_items"] = corpus_items
+    ns["corpus_strategy"] = corpus_strategy
+    ns["strategy"] = strategy
